@@ -157,6 +157,8 @@ static size_t widen(const char *s, wchar_t *w, size_t n) {
     return i;
 }
 
+static struct { uintptr_t end; int dir; } g_argblk[FMAXD + 1];
+static int g_nargblk;
 void fmt_run(const fcase_t *c, fres_t *x, int want_ref, int guard) {
     const fent_t *e = &g_fent[c->ent];
     ffi_cif cif;
@@ -191,6 +193,7 @@ void fmt_run(const fcase_t *c, fres_t *x, int want_ref, int guard) {
     else if (e->sink == SK_STREAM) nfixed = 2;
     else nfixed = 1;
     n = nfixed;
+    g_nargblk = 0;
     for (i = 0; i < c->nd; i++) {
         const fdir_t *d = &c->d[i];
         if (d->conv == '%' || d->conv == 'N' || d->conv == '[') continue;
@@ -214,8 +217,39 @@ void fmt_run(const fcase_t *c, fres_t *x, int want_ref, int guard) {
         }
         case 'c': PUSH(ffi_type_sint, i, CVALS[d->vsel % NCV]); break;
         case 'C': PUSH(ffi_type_uint, u, WCVALS[d->vsel % NWCV]); break;
-        case 's': PUSH(ffi_type_pointer, p, (void *)SVALS[d->vsel % NSV]); break;
-        case 'S': PUSH(ffi_type_pointer, p, (void *)WSVALS[d->vsel % NWSV]); break;
+        case 's': {
+            const char *sv = SVALS[d->vsel % NSV];
+            if (c->argmode) {
+                size_t L = strlen(sv), k2;
+                unsigned char *ab;
+                int pr = d->prec == -2 ? d->pstar : d->prec;
+                /* wide entries hand %s to libc's vswprintf, whose mbsrtowcs step measures strnlen(arg, N*MB_CUR_MAX):
+                   that read is libc's, not safeclib's, so those get a terminated argument */
+                if (e->wide) pr = -1;
+                if (pr >= 0 && d->prec != -1) { /* at most pr bytes may be read: give exactly pr, unterminated */
+                    ab = ar_alloc(guard, PL_END, (size_t)pr, 0);
+                    for (k2 = 0; k2 < (size_t)pr; k2++) ab[k2] = k2 < L ? (unsigned char)sv[k2] : 'q';
+                } else { ab = ar_alloc(guard, PL_END, L + 1, 0); memcpy(ab, sv, L + 1); }
+                g_argblk[g_nargblk].end = (uintptr_t)ab + ((pr >= 0 && d->prec != -1) ? (size_t)pr : L + 1); g_argblk[g_nargblk++].dir = i;
+                PUSH(ffi_type_pointer, p, ab);
+            } else PUSH(ffi_type_pointer, p, (void *)sv);
+            break;
+        }
+        case 'S': {
+            const wchar_t *wv = WSVALS[d->vsel % NWSV];
+            if (c->argmode) {
+                size_t L = wcslen(wv), k2;
+                wchar_t *ab;
+                int pr = d->prec == -2 ? d->pstar : d->prec;
+                if (pr >= 0 && d->prec != -1) {
+                    ab = (wchar_t *)(void *)ar_alloc(guard, PL_END, (size_t)pr * sizeof(wchar_t), 0);
+                    for (k2 = 0; k2 < (size_t)pr; k2++) ab[k2] = k2 < L ? wv[k2] : L'q';
+                } else { ab = (wchar_t *)(void *)ar_alloc(guard, PL_END, (L + 1) * sizeof(wchar_t), 0); memcpy(ab, wv, (L + 1) * sizeof(wchar_t)); }
+                g_argblk[g_nargblk].end = (uintptr_t)ab + sizeof(wchar_t) * ((pr >= 0 && d->prec != -1) ? (size_t)pr : L + 1); g_argblk[g_nargblk++].dir = i;
+                PUSH(ffi_type_pointer, p, ab);
+            } else PUSH(ffi_type_pointer, p, (void *)wv);
+            break;
+        }
         case 'p': PUSH(ffi_type_pointer, p, (void *)(uintptr_t)(0x1000 * (d->vsel % 7))); break;
         case 'n': blk_is_n[nblk] = 1; PUSH(ffi_type_pointer, p, g_blocks[nblk]); nblk++; break;
         default: /* floating */
@@ -288,6 +322,8 @@ void fmt_run(const fcase_t *c, fres_t *x, int want_ref, int guard) {
     g_fx = NULL;
     x->ret = (int)rc;
     x->faulted = g_ar_fault.faulted; x->fault_write = g_ar_fault.is_write; x->sig = g_ar_fault.sig;
+    x->fault_dir = -1;
+    if (x->faulted) { int q; for (q = 0; q < g_nargblk; q++) if (g_ar_fault.addr >= g_argblk[q].end && g_ar_fault.addr < g_argblk[q].end + 4096) x->fault_dir = g_argblk[q].dir; }
     for (i = 0; i < nblk; i++) {
         int j;
         if (!blk_is_n[i]) continue;
